@@ -1,9 +1,10 @@
 import DepsDev.Proofs.C03L3Npm
 
 /-!
-# C03 layer L3 for npm, operator `ge`: one comparator, prerelease candidates
+# C03 layer L3 for npm, operator `ge`: one comparator, prerelease candidates (operands without tag)
 
-See `C03L3Npm` for the statement (`L3Npm`) and the proof script.
+See `C03L3Npm` for the statements and the proof script; `C03L3NpmGeP` has the tagged operands
+and the assembled `L3Npm .ge`.
 -/
 namespace DepsDev.Proofs.C03
 
@@ -13,12 +14,6 @@ set_option linter.unusedSimpArgs false
 set_option linter.unusedVariables false
 
 theorem l3_full_ge : L3Full .ge := by l3_full
-theorem l3_pre_lt_ge : L3PreO .ge .lt := by l3_pre
-theorem l3_pre_eq_ge : L3PreO .ge .eq := by l3_pre
-theorem l3_pre_gt_ge : L3PreO .ge .gt := by l3_pre
 theorem l3_part_ge : L3Part .ge := by l3_part
-
-theorem l3_npm_ge : L3Npm .ge :=
-  l3_assemble _ l3_full_ge (l3_pre_assemble _ l3_pre_lt_ge l3_pre_eq_ge l3_pre_gt_ge) l3_part_ge
 
 end DepsDev.Proofs.C03
